@@ -16,7 +16,7 @@ R6  loaded paths are a component of the reader's signature, with duplicates remo
 from __future__ import annotations
 
 import ast
-from typing import List, Optional
+from typing import List, Optional, Set
 
 from ..cfg import cfg_of
 from ..flow import flow_of
@@ -701,6 +701,15 @@ def run(ctx: Ctx) -> None:
                         "module variable): the store-path resolver refuses such a name, and the call-site inspectors hand over the local names")
     n21 = local_paths_refused(ctx, "C09.R21")
     rep.floor("C09.R21", n21, 5)
+    rep.rule("C09.R22", "inside an evaluation load looks first among the paths this evaluation produces, then among those resolved from the store at its start")
+    n22 = load_prefers_own_paths(ctx, "C09.R22")
+    rep.floor("C09.R22", n22, 1)
+    rep.rule("C09.R23", "both visitors follow a function referenced by name unless visit_Call has handled that name (the seen-names test is `not in`)")
+    n23 = reference_skips_seen(ctx, "C09.R23")
+    rep.floor("C09.R23", n23, 2)
+    rep.rule("C09.R24", "the sources of one combined signature (calls, loads, arguments ...) use disjoint key families: equal pairs would cancel in the exclusive-or")
+    n24 = key_families_disjoint(ctx, "C09.R24")
+    rep.floor("C09.R24", n24, 2)
     from .common import collected_is_used
     rep.rule("C09.R20", "what the analysis collects it hands on: the interactions found in the methods of a class, in the sub-calls and in the loads of a function are part of the record "
                         "the inspector returns (a local collection that is filled is also read)")
@@ -810,4 +819,169 @@ def local_paths_refused(ctx: Ctx, rule: str) -> int:
                 else:
                     rep.bad(rule, f.qname, d2, f.loc(c), [f"{f.loc(c)}: `{unparse(c, 80)}` does not pass `{f_locals[0]}`"], stmt_key(c),
                             what="a call-site inspector resolves a path name without telling the resolver the function's local names")
+    return n
+
+
+def load_prefers_own_paths(ctx: Ctx, rule: str) -> int:
+    """Inside an evaluation dds.load looks a path up first among the paths THIS evaluation produces (the path map of the context), and only then among the
+    paths resolved from the store when the evaluation started: a path that is in both tables (the root keeps a path it also loads) must get the key
+    being produced - whose blob is not there yet, so that the load is refused - not the previous content of the store."""
+    from .roles import path_map_field
+    rep = ctx.report
+    prog = ctx.prog
+    load = prog.func("dds._api.load")
+    if load is None:
+        raise AnchorError("dds._api.load not found")
+    pmf = path_map_field(ctx)
+    cfg = cfg_of(load)
+    own = [x for x in load.own_nodes() if isinstance(x, ast.Attribute) and x.attr == pmf and isinstance(x.ctx, ast.Load)]
+    from .roles import _record_fields
+    maps = [k_ for k_, a_ in _record_fields(ctx, "dds.structures.EvalContext").items() if "DDSPath" in a_ and "PyHash" in a_ and k_ != pmf]
+    # every read of another path -> signature table of the context that feeds a look-up (`.get(..)` / subscript), however it is written (`(ctx.loaded or {}).get(p)`)
+    other = []
+    for x in load.own_nodes():
+        if isinstance(x, ast.Attribute) and isinstance(x.ctx, ast.Load) and x.attr in maps:
+            st_ = prog.enclosing_stmt(load.module, x)
+            if any(isinstance(p_, ast.Call) and isinstance(p_.func, ast.Attribute) and p_.func.attr == "get" for p_ in ast.walk(st_)) or any(isinstance(p_, ast.Subscript) for p_ in ast.walk(st_)):
+                if not isinstance(st_, ast.If) or True:
+                    other.append(x)
+    # (a bare test `ctx.loaded is not None` is not a look-up)
+    other = [x for x in other if not (isinstance(load.module.parent.get(x), ast.Compare) and not any(
+        isinstance(p_, ast.Call) and isinstance(p_.func, ast.Attribute) and p_.func.attr == "get" and any(y is x for y in ast.walk(p_.func.value)) for p_ in load.own_nodes()))]
+    if not own or not other:
+        return 0
+    own_nodes = [g for x in own for g in cfg.nodes_of(prog.enclosing_stmt(load.module, x))]
+    n = 0
+    for x in other:
+        n += 1
+        st = prog.enclosing_stmt(load.module, x)
+        desc = f"load consults `{unparse(x, 40)}` only after the paths produced by this evaluation (`{pmf}`)"
+        p = cfg.find_path([cfg.entry], cfg.nodes_of(st), avoid=own_nodes)
+        if p is None:
+            rep.ok(rule, load.qname, desc, load.loc(x))
+        else:
+            rep.bad(rule, load.qname, desc, load.loc(x), [f"{load.loc(x)}: `{unparse(st, 70)}` is reached before any look-up in `{pmf}`",
+                    "dds.keep('/acc', f) where f loads '/acc' itself, on a store that already holds '/acc': the load is served the previous content (the function accumulates over its own "
+                    "output) where the evaluation must be refused"], "load-order", what="dds.load prefers the store's previous content to the path this evaluation is producing")
+    return n
+
+
+def reference_skips_seen(ctx: Ctx, rule: str) -> int:
+    """visit_Name of both visitors follows a function that is referenced by name only when visit_Call has NOT handled it already: the membership test on the set
+    of seen names that guards the inspection is negative (`not in`)."""
+    rep = ctx.report
+    prog = ctx.prog
+    n = 0
+    for q in ("dds.introspect.IntroVisitor", "dds._introspect_indirect.IntroVisitorIndirect"):
+        k = prog.cls(q)
+        if k is None:
+            continue
+        vc, vn = k.methods.get("visit_Call"), k.methods.get("visit_Name")
+        if vc is None or vn is None:
+            continue
+        seen_sets = {y.func.value.attr for m__ in k.methods.values() if m__.name != "__init__" for y in m__.own_nodes()
+                     if isinstance(y, ast.Call) and isinstance(y.func, ast.Attribute) and y.func.attr in ("add", "update")
+                     and isinstance(y.func.value, ast.Attribute) and isinstance(y.func.value.value, ast.Name) and y.func.value.value.id == "self"}
+        tests = [c for c in vn.own_nodes() if isinstance(c, ast.Compare) and len(c.ops) == 1 and isinstance(c.ops[0], (ast.In, ast.NotIn))
+                 and isinstance(c.comparators[0], ast.Attribute) and c.comparators[0].attr in seen_sets]
+        for c in tests:
+            n += 1
+            desc = f"{k.name}.visit_Name inspects a referenced function only when `{unparse(c.comparators[0], 30)}` does not hold it"
+            # polarity: the compare sits positively in an `and` chain (possibly under `not`)
+            par = vn.module.parent.get(c)
+            negated = isinstance(par, ast.UnaryOp) and isinstance(par.op, ast.Not)
+            positive_notin = isinstance(c.ops[0], ast.NotIn) != negated
+            if positive_notin:
+                rep.ok(rule, vn.qname, desc, vn.loc(c))
+            else:
+                rep.bad(rule, vn.qname, desc, vn.loc(c), [f"{vn.loc(c)}: `{unparse(par if negated else c, 60)}` lets through exactly the names visit_Call has handled",
+                        "a function that is only handed by name to a higher-order helper (`apply(reader)`) is not followed: the paths it loads are not resolved before the main analysis, "
+                        "which then refuses them as 'loaded before produced' although they are in the store"], stmt_key(c),
+                        what="functions referenced by name are not followed by the analysis (the seen-names test is inverted)")
+    return n
+
+
+def key_families_disjoint(ctx: Ctx, rule: str) -> int:
+    """The (key, hash) pairs that one call of the order-insensitive combiner receives from different sources carry keys of different families (`fun_dep_<i>`,
+    `load_dep_<i>`, `arg_<name>` ...): two equal pairs cancel in the exclusive-or, so that a call and a load with the same index and the same signature would
+    both drop out of the context."""
+    rep = ctx.report
+    prog = ctx.prog
+
+    def families(f: Func, e: ast.AST, depth: int = 0) -> Optional[Set[str]]:
+        """key prefixes of the pairs this expression yields (None when not recognised)"""
+        if isinstance(e, ast.BinOp) and isinstance(e.op, ast.Add):
+            return None
+        pair = None
+        if isinstance(e, (ast.ListComp, ast.GeneratorExp)) and isinstance(e.elt, ast.Tuple) and len(e.elt.elts) == 2:
+            pair = [e.elt]
+        elif isinstance(e, ast.List) and all(isinstance(x, ast.Tuple) and len(x.elts) == 2 for x in e.elts) and e.elts:
+            pair = list(e.elts)
+        if pair is not None:
+            out = set()
+            for t in pair:
+                k = t.elts[0]
+                if isinstance(k, ast.Call) and len(k.args) == 1:
+                    k = k.args[0]
+                if isinstance(k, ast.JoinedStr):
+                    out.add("".join(v.value for v in k.values if isinstance(v, ast.Constant) and isinstance(v.value, str)))
+                elif isinstance(k, ast.Constant):
+                    out.add(str(k.value))
+                elif isinstance(k, ast.Name):
+                    out.add("$" + k.id)
+                else:
+                    return None
+            return out
+        if isinstance(e, ast.Name) and depth < 3:
+            ds = flow_of(prog, f).defs_of_use(e)
+            if len(ds) == 1 and ds[0].value is not None:
+                return families(f, ds[0].value, depth + 1)
+            return None
+        if isinstance(e, ast.Call) and depth < 3:
+            fs, _ = prog.callees(f, e, ctx._types)
+            if len(fs) == 1 and fs[0].module.name.startswith("dds"):
+                g = fs[0]
+                rets = [r for r in g.own_nodes() if isinstance(r, ast.Return) and r.value is not None]
+                if len(rets) == 1:
+                    return families(g, rets[0].value, depth + 1)
+        if isinstance(e, ast.IfExp):
+            a, b = families(f, e.body, depth), families(f, e.orelse, depth)
+            return (a or set()) | (b or set()) if a is not None or b is not None else None
+        return None
+
+    def operands(e: ast.AST) -> List[ast.AST]:
+        if isinstance(e, ast.BinOp) and isinstance(e.op, ast.Add):
+            return operands(e.left) + operands(e.right)
+        return [e]
+    n = 0
+    for f in prog.funcs.values():
+        if f.module.name not in ("dds.introspect", "dds._introspect_indirect"):
+            continue
+        for c in f.own_nodes():
+            if not (isinstance(c, ast.Call) and (prog.dotted(f, c.func) or "").endswith("dds_hash_commut") and c.args):
+                continue
+            arg = c.args[0]
+            if isinstance(arg, ast.Name):
+                ds = flow_of(prog, f).defs_of_use(arg)
+                if len(ds) == 1 and ds[0].value is not None:
+                    arg = ds[0].value
+            ops = operands(arg)
+            fams = [(o, families(f, o)) for o in ops]
+            known = [(o, fm) for o, fm in fams if fm]
+            if len(known) < 2:
+                continue
+            n += 1
+            clash = []
+            for i in range(len(known)):
+                for j in range(i + 1, len(known)):
+                    common = known[i][1] & known[j][1]
+                    if common:
+                        clash.append(f"`{unparse(known[i][0], 40)}` and `{unparse(known[j][0], 40)}` both yield keys `{sorted(common)[0]}..`")
+            desc = f"{f.name}: the pairs combined by `{unparse(c, 40)}` come with keys of distinct families {[sorted(fm)[0] for _, fm in known]}"
+            if clash:
+                rep.bad(rule, f.qname, desc, f.loc(c), clash + ["when the i-th tracked call produces the path p and the i-th load reads p, the two pairs (same key, same signature) cancel in the "
+                        "exclusive-or: the later call that receives the loaded value keeps its signature when the producer changes"], stmt_key(c),
+                        what="two sources of one combined signature share a key family: equal pairs cancel out")
+            else:
+                rep.ok(rule, f.qname, desc, f.loc(c))
     return n
